@@ -98,7 +98,7 @@ class Storage(Machine):
             "fast_stack": True,
             "clock": "advancing",
             "faults_enabled": s.chance(0.4),
-            "fault_kinds": s.subset(["crash", "enospc", "eio_read", "short_read", "short_write", "open_fail"], 0.6),
+            "fault_kinds": s.subset(["crash", "enospc", "eio_read", "short_read", "short_write", "write_fail", "open_fail"], 0.6),
             "rerun_after_crash": s.chance(0.8),
         }
         # custom vendor/class pairs
@@ -136,7 +136,7 @@ class Storage(Machine):
         for e in range(n_env):
             v, c, origin = s.choice(classes_pool)
             envs.append({"name": self.odd_stem(s, f"e{e}"), "vendor": v, "class": c, "origin": origin,
-                         "sign": s.choice([None, None, "es-256", "eddsa"]),
+                         "sign": s.choice([None, None, "es-256", "eddsa", "es-384", "es-521", "eddsa448"]),
                          "cid_pos": s.choice(["early", "late", "any", "any"]),
                          "big": s.chance(0.08), "payloads": s.choice([0, 0, 1, 2]),
                          # bytes that look like the start of an installed-manifest component id, followed by the class
@@ -310,8 +310,10 @@ class Storage(Machine):
                 continue
             data = host.read(rel)
             if e["sign"]:
-                key = world.make_private_key(host.seed, e["name"], "ed25519" if e["sign"] == "eddsa" else e["sign"])
-                data = world.harness_sign(data, e["sign"], key, 0x7FFFFFE0, s.sub("sig"))
+                # all signature sizes a stored envelope can carry: 64 (P-256, Ed25519), 96, 132 and 114 bytes (Ed448)
+                kkind = {"eddsa": "ed25519", "eddsa448": "ed448"}.get(e["sign"], e["sign"])
+                key = world.make_private_key(host.seed, e["name"], kkind)
+                data = world.harness_sign(data, "eddsa" if e["sign"] == "eddsa448" else e["sign"], key, 0x7FFFFFE0, s.sub("sig"))
                 host.write(rel, data)
             model["envs"][e["name"]] = {"rel": rel, "vendor": e["vendor"], "class": e["class"], "signed": bool(e["sign"])}
             if prop == "C13" and e["cid_pos"] != "missing":
